@@ -309,6 +309,7 @@ def run(ctx):
     absent_only_if_not_found(ctx, '10')
     init_decided_by_content(ctx, '12')
     shared.allocation_state_belongs_to_a_record(ctx, '13')
+    shared.workers_own_tree_lock_is_not_a_reader(ctx, '20')     # F75: commit order without any client reader
     shared.deferral_keeps_commit_order(ctx, '14')   # the log holds the commits in commit order: a prefix of the log is a prefix of the history
     shared.record_goes_to_the_table_it_names(ctx, '15')   # replay validates and applies an action against the table it names
     shared.record_sections_in_table_order(ctx, '16')     # table files of one record come into existence oldest first
